@@ -17,7 +17,7 @@ NS = (f'xmlns:w="{W}" xmlns:r="http://schemas.openxmlformats.org/officeDocument/
       'xmlns:v="urn:schemas-microsoft-com:vml" '
       'xmlns:m="http://schemas.openxmlformats.org/officeDocument/2006/math"')
 
-SUPPORTS = {"r.acc", "r.num", "p", "h", "ul", "ul.nested", "tbl", "tbl.nested", "cell.multi", "sdt", "tbx", "r", "tab", "br",
+SUPPORTS = {"itbx", "r.acc", "r.num", "p", "h", "ul", "ul.nested", "tbl", "tbl.nested", "cell.multi", "sdt", "tbx", "r", "tab", "br",
             "a", "ins", "del", "isdt", "fn", "cm", "header", "footer"}
 
 
@@ -66,6 +66,15 @@ def _inlines(inls, c: _Ctx, deleted=False) -> str:
             out.append(f'<w:del w:id="{c.nid}" w:author="a" w:date="2024-01-01T00:00:00Z">'
                        f'{_inlines(i[1], c, True)}</w:del>')
             c.nid += 1
+        elif t == "itbx":       # a text box anchored in a run of this paragraph (more runs may follow)
+            inner = _blocks(i[1], c)
+            out.append(
+                '<w:r><mc:AlternateContent><mc:Choice Requires="wps"><w:drawing><wp:anchor>'
+                '<a:graphic><a:graphicData uri="http://schemas.microsoft.com/office/word/2010/wordprocessingShape">'
+                f'<wps:wsp><wps:txbx><w:txbxContent>{inner}</w:txbxContent></wps:txbx></wps:wsp>'
+                '</a:graphicData></a:graphic></wp:anchor></w:drawing></mc:Choice>'
+                f'<mc:Fallback><w:pict><v:shape><v:textbox><w:txbxContent>{inner}</w:txbxContent></v:textbox>'
+                '</v:shape></w:pict></mc:Fallback></mc:AlternateContent></w:r>')
         elif t == "isdt":
             out.append(f'<w:sdt><w:sdtPr><w:alias w:val="ctl"/></w:sdtPr><w:sdtContent>'
                        f'{_inlines(i[1], c, deleted)}</w:sdtContent></w:sdt>')
